@@ -142,7 +142,9 @@ fn run(payload: &str) -> String {
     let [loc, val, opts, keys] = parts.as_slice() else {
         return "bad-case".to_string();
     };
-    let Ok(langid) = loc.parse::<LanguageIdentifier>() else {
+    // `<locale>` may be a CHAIN `a+b+c`: the bundle gets all of them, its plural rules are those of the first
+    let chain: Result<Vec<LanguageIdentifier>, _> = loc.split('+').map(|l| l.parse::<LanguageIdentifier>()).collect();
+    let Ok(chain) = chain else {
         return "bad-locale".to_string();
     };
     let val = if let Some(h) = val.strip_prefix('L') {
@@ -244,12 +246,12 @@ fn run(payload: &str) -> String {
     ftl.push_str(&format!("r = {{ PROBE({}) }}\n", sel_expr));
 
     let ftl_copy = ftl.clone();
-    let langid2 = langid.clone();
+    let chain2 = chain.clone();
     let res = match FluentResource::try_new(ftl) {
         Ok(r) => r,
         Err((_, errs)) => return format!("bad-ftl {}", errs.len()),
     };
-    let mut bundle: FluentBundle<FluentResource> = FluentBundle::new(vec![langid]);
+    let mut bundle: FluentBundle<FluentResource> = FluentBundle::new(chain);
     bundle.set_use_isolating(false);
     if bundle.add_builtins().is_err() || bundle.add_function("PROBE", probe).is_err() {
         return "bad-bundle".to_string();
@@ -315,7 +317,7 @@ fn run(payload: &str) -> String {
             break;
         };
         let mut cb: fluent_bundle::concurrent::FluentBundle<FluentResource> =
-            fluent_bundle::concurrent::FluentBundle::new_concurrent(vec![langid2.clone()]);
+            fluent_bundle::concurrent::FluentBundle::new_concurrent(chain2.clone());
         cb.set_use_isolating(false);
         if cb.add_builtins().is_err() || cb.add_function("PROBE", probe).is_err() || cb.add_resource(res).is_err() {
             cs = "bad-bundle".to_string();
